@@ -303,7 +303,7 @@ def fam_multi_validate(case):
     n, na = y.shape
     X = np.arange(2.0 * n).reshape(n, 2)
     cand = None if case["cand"] is None else np.array(case["cand"], dtype=int)
-    ann = None if case["ann"] is None else np.array(case["ann"], dtype=int if case["amode"] == "idx" else bool)
+    ann = None if case["ann"] is None else np.array(case["ann"], dtype=int if case["amode"] in ("idx", "matrix_int") else bool)
     if cand is not None and (len(set(cand.tolist())) != len(cand) or cand.min() < 0 or cand.max() >= n):
         return []
     if case["amode"] == "idx" and (ann.min() < 0 or ann.max() >= na):
@@ -323,8 +323,9 @@ def fam_multi_validate(case):
     out = []
     if int(bs2) != min(bs_s, pairs):
         out.append({"sig": case["sig"], "detail": f"batch size {bs2}, expected min({bs_s}, {pairs} candidate pairs) (candidates {case['cand']}, annotators {case['ann']}, batch_size {bs})"})
-    if case["amode"] == "matrix":
+    if case["amode"] in ("matrix", "matrix_int"):
         a2 = np.asarray(a2)
+        ann = ann.astype(bool)
         want = ann if cand is None else np.array([ann[cand.tolist().index(int(v))] for v in np.asarray(c2).tolist()])
         if a2.dtype != bool or a2.shape != want.shape or not np.array_equal(a2, want):
             out.append({"sig": case["sig"], "detail": f"availability matrix returned as {a2.astype(int).tolist()} for validated candidates {np.asarray(c2).tolist() if c2 is not None else None}, "
@@ -333,6 +334,54 @@ def fam_multi_validate(case):
 
 
 FAMILIES["multi_validate"] = fam_multi_validate
+
+
+def fam_classifier_validate(case):
+    """SkactivemlClassifier._validate_data through ParzenWindowClassifier.fit: classes_ are the declared classes in ascending order and
+    cost_matrix_[i, j] is the user's cost for (classes_[i], classes_[j]); without a user matrix the 0/1 loss; after a refit random_state_ is
+    the generator check_random_state(random_state) gives (no state left over from the earlier fit)"""
+    from skactiveml.classifier import ParzenWindowClassifier
+    K = int(case["K"])
+    out = []
+    for as_str in (False, True):
+        if case["class_keys"] is not None:
+            ranks = np.argsort(np.argsort(case["class_keys"]))
+            classes = [f"c{r:02d}" for r in ranks] if as_str else [int(r) for r in ranks]
+        else:
+            classes = None
+        labels = sorted(classes) if classes is not None else ([f"c{r:02d}" for r in range(K)] if as_str else list(range(K)))
+        cost = None if case["cost"] is None else np.array(case["cost"], dtype=float)
+        ml = "none" if as_str else -1
+        X = np.arange(2.0 * (K + 2)).reshape(K + 2, 2)
+        y = np.array(labels + [ml, labels[0]], dtype="U8" if as_str else int)
+        clf = ParzenWindowClassifier(classes=classes, missing_label=ml, cost_matrix=cost, random_state=7)
+        if case["refit"]:
+            clf.fit(X, np.array([ml] * len(y), dtype=y.dtype) if classes is not None else y)
+            clf.predict(X)                               # tie-breaks draw from random_state_
+        clf.fit(X, y)
+        got = np.asarray(clf.cost_matrix_, dtype=float)
+        if classes is not None and list(clf.classes_) != sorted(classes):
+            out.append({"sig": case["sig"], "detail": f"classes_ {list(clf.classes_)} for declared classes {classes}"})
+        if cost is None:
+            want = 1.0 - np.eye(K)
+        elif classes is None:
+            want = cost
+        else:
+            order = [classes.index(c) for c in sorted(classes)]
+            want = cost[np.ix_(order, order)]
+        if got.shape != want.shape or not np.array_equal(got, want):
+            out.append({"sig": case["sig"], "detail": f"cost_matrix_ {got.tolist()} but the user's costs in the order of classes_ {list(clf.classes_)} are "
+                                                      f"{want.tolist()} (classes={classes}, cost_matrix={None if cost is None else cost.tolist()})"})
+        if case["refit"]:
+            fresh = np.random.RandomState(7).get_state()
+            st = clf.random_state_.get_state()
+            if not (st[0] == fresh[0] and np.array_equal(st[1], fresh[1]) and st[2:] == fresh[2:]):
+                out.append({"sig": case["sig"], "detail": "after fit, predict, fit the generator random_state_ is not the one check_random_state(random_state=7) "
+                                                          "returns: the second fit depends on the history of the object"})
+    return out
+
+
+FAMILIES["classifier_validate"] = fam_classifier_validate
 
 
 def run_case(prop, case):
